@@ -431,6 +431,9 @@ _ADD = {
            "anchor count, size / decompression / URI limits, proof-reference discipline, bad file => the transaction fails) are "
            "restated for get_txn_operations on bytes; tied to the real decoders and provider by gen_files (value- and text-level "
            "mutations of real file sets, arbitrary bytes). gzip and the CAS remain facts. Per-type limits at provider level (Batch/PerType.v): every file a successful read used met the limit of its own type; one real provider is driven through one object in two roles (two_roles cases: limits hold on every read, whatever was read before).",
+    "C09": " Detached-payload option (Jws/Detached.v): acceptance under WithJWSDetachedPayload(d) means the primitive accepted the "
+           "signing input of the header and d, the payload segment plays no role; the real verifier is called with the option through "
+           "the hook verifhooks.VerifyJWSDetached and the model is asked about the equivalent compact form (cases detached:*).",
     "C13": " The per-file round trip is proved at byte level (Batch/FilesOfBytesProofs.v): decoding the canonical JSON text of a file "
            "struct returns it, and every file the real handler writes is checked to be the canonical text of its decoded struct.",
     "C12": " At resolve level, without the 'follows' hypothesis: NoDup of the commitments revealed by the applied recover/deactivate "
